@@ -106,6 +106,14 @@ def columns(case):
             n1, e1, s1 = rich(seq[:, c:c + 1], st[:, c:c + 1])
             if not (np.array_equal(n1[:, 0], n3[:, c]) and np.array_equal(e1[:, 0], e3[:, c])):
                 bad.append(dict(K=K, nt=nt, column=c, magnitudes=[1.0, 1e12, 2.0], error_estimate_alone=e1[:, 0].tolist(), error_estimate_jointly=e3[:, c].tolist()))
+        # complex table whose first column is real-valued: every column keeps its imaginary part
+        zseq = seq.astype(complex)
+        zseq[:, 1] = zseq[:, 1] * (1 + 0.5j); zseq[:, 2] = zseq[:, 2] * (0.25 - 2j)
+        nz = rich(zseq, st)[0]
+        for c in range(3):
+            n1 = rich(zseq[:, c:c + 1], st[:, c:c + 1])[0]
+            if not np.array_equal(n1[:, 0], nz[:, c]):
+                bad.append(dict(K=K, nt=nt, column=c, table='complex, first column real-valued', alone=str(n1[:, 0][:2]), jointly=str(nz[:, c][:2])))
     return dict(reproduced=bool(bad), failing=bad[:4])
 
 
@@ -123,8 +131,17 @@ def reconf(case):
         L = 1.25
         a = [0.7, -1.3, 0.4, 2.0][:nt]
         seq = (L + sum(a[j] * h ** (order + step * j) for j in range(nt))).reshape(-1, 1)
+        # a short sequence first (handled with fewer terms), then the full one on the same object
+        short = r(seq[:2], h[:2].reshape(-1, 1))[0]
+        if short.shape[0] != 1 or r.num_terms != nt:
+            bad.append(dict(config=dict(step_ratio=ratio, step=step, order=order, num_terms=nt), after_a_2_row_call=dict(num_terms=r.num_terms, outputs=int(short.shape[0]))))
         new, err, st = r(seq, h.reshape(-1, 1))
+        if new.shape[0] != K - nt:
+            bad.append(dict(config=dict(step_ratio=ratio, step=step, order=order, num_terms=nt), rows=K, outputs=int(new.shape[0]), expected_outputs=K - nt,
+                            history='a 2-row sequence was extrapolated with the same object before'))
         fresh = ex.Richardson(step_ratio=ratio, step=step, order=order, num_terms=nt)(seq, h.reshape(-1, 1))[0]
+        if new.shape != fresh.shape:
+            continue
         dev = float(np.max(np.abs(new - L)))
         devf = float(np.max(np.abs(fresh - L)))
         if dev > 1e-9 + 100 * devf:
